@@ -6,8 +6,10 @@
    file system: the regular files below the scratch root).  A content is the sequence of its
    parsed entries, abstracted to `Inc written_path` (an include directive) or `Ent id` (any
    other entry, identified by a number).  Names and written paths are strings of Unicode scalar
-   values.  Hazard: the recursion of load_impl has no visited-set, so a cyclic include diverges
-   (stack overflow; defect F6 of C06); the model recurses on explicit fuel and answers OutOfFuel. *)
+   values.  `loadc` is load_impl as it is (with the stack of files being loaded that repaired F6:
+   an include cycle is LoadError::IncludeCycle); `load` is the same without that check, the
+   cycle-free core most lemmas are stated about (Proofs/LoadCycle.v: the two agree on every
+   load that ends normally).  Both recurse on explicit fuel and answer OutOfFuel when it runs out. *)
 From Coq Require Import List NArith Bool.
 From Okv Require Import Model.Glob.
 Import ListNotations.
@@ -117,6 +119,7 @@ Fixpoint lookup (p : path) (fs : fsys) : option (list entry) :=
 Inductive lerr :=
 | IONotFound          (* LoadError::IO(kind NotFound): missing file, or a glob that hits nothing *)
 | RootLoadingPath     (* the including path has no parent *)
+| IncludeCycle        (* the file is already being loaded *)
 | Unsupported.        (* pattern outside the model (a character class or a recursive wildcard) *)
 
 Inductive status := Done | Failed (e : lerr) | OutOfFuel.
@@ -173,4 +176,19 @@ Fixpoint load (fuel : nat) (fs : fsys) (p : path) : run :=
       | None => ([], Failed IONotFound)
       | Some content => load_entries (load f fs) fs cp content
       end
+  end.
+
+(* load_impl with `loading`, the canonical paths of the files being loaded (root first in the
+   Rust Vec; a list here, only membership matters) *)
+Fixpoint loadc (fuel : nat) (fs : fsys) (loading : list path) (p : path) : run :=
+  match fuel with
+  | O => ([], OutOfFuel)
+  | S f =>
+      let cp := canonicalize p in
+      if existsb (path_eqb cp) loading then ([], Failed IncludeCycle)
+      else
+        match lookup cp fs with
+        | None => ([], Failed IONotFound)
+        | Some content => load_entries (loadc f fs (cp :: loading)) fs cp content
+        end
   end.
